@@ -802,9 +802,10 @@ def hrnp_verdict_rule(ctx, repo, captures):
         if k != "ok" or not isinstance(v, AObj):
             raise AnalysisError(f"HRNP.from_bytes on a constant frame: {k}: {v}")
         c = v.attrs.get("checksum_correct")
-        if isinstance(c, AInt):
-            cc = I.I_const(c) if hasattr(I, "I_const") else None
-            c = bool(cc) if cc is not None else c
+        if isinstance(c, AInt) and c.ext is None:
+            cb = I.simp_bits(c.bits)
+            if all(isinstance(x, F) and x.is_const for x in cb):
+                c = any(x.c for x in cb)
         if c not in (True, False):
             raise AnalysisError(f"checksum_correct of a constant frame is {c!r}")
         return c
